@@ -194,17 +194,33 @@ def static_tables(ctx, rng, tmp, read_elast_data):
         vols = numpy.sort(rng.uniform(100, 900, nv))[::-1]
         vals = rng.uniform(-500, 500, (nv, len(ks)))
         latv = rng.uniform(0.5, 5, (nv, 3))
-        lines = ["a comment line", f"{vref!r} {nv} {mass!r}", "V " + " ".join(names)]
+        # the same table in different ink: number notation (plain / exponent / explicit sign), separators (blank, blanks, tab), line
+        # ends, leading and trailing blanks.  The tabulated value is what the printed token denotes.
+        nstyle, sep, eol = int(rng.integers(0, 3)), str(rng.choice([" ", "   ", "\t"])), str(rng.choice(["\n", "\n", "\r\n"]))
+        pad_l, pad_r = str(rng.choice(["", " ", "  "])), str(rng.choice(["", " ", "\t"]))
+
+        def num(x):
+            tok = [repr(float(x)), "%.10E" % float(x), "%+.8f" % float(x)][nstyle]
+            return tok, float(tok)
+        tv, tm = num(vref), num(mass)
+        vref, mass = tv[1], tm[1]
+        toks = [[num(x) for x in row] for row in vals]
+        vals = numpy.array([[t[1] for t in row] for row in toks]).reshape(nv, len(ks))
+        vtoks = [num(x) for x in vols]
+        vols = numpy.array([t[1] for t in vtoks])
+        ltoks = [[num(x) for x in row] for row in latv]
+        latv = numpy.array([[t[1] for t in row] for row in ltoks])
+        lines = ["a comment line", pad_l + sep.join([tv[0], str(nv), tm[0]]) + pad_r, pad_l + sep.join(["V"] + names) + pad_r]
         for i in range(nv):
-            lines.append(f"{float(vols[i])!r} " + " ".join(repr(float(x)) for x in vals[i]))
+            lines.append(pad_l + sep.join([vtoks[i][0]] + [t[0] for t in toks[i]]) + pad_r)
         if lat:
             lines.append("lattice parameters a b c")
             for i in range(nv):
-                lines.append(" ".join(repr(float(x)) for x in latv[i]))
+                lines.append(pad_l + sep.join(t[0] for t in ltoks[i]) + pad_r)
         f = tmp / "elast.dat"
-        trail = "" if lat else str(rng.choice(["", "\n", "\n\n", "   \n"]))      # blank line(s) after a table without lattice block
-        f.write_text("\n".join(lines) + "\n" + trail)
-        ctx.count({"static": names, "nv": nv, "lat": lat, "trail": trail})
+        trail = "" if lat else str(rng.choice(["", eol, eol + eol, "   " + eol]))      # blank line(s) after a table without lattice block
+        f.write_bytes((eol.join(lines) + eol + trail).encode())
+        ctx.count({"static": names, "nv": nv, "lat": lat, "trail": trail, "ink": [nstyle, sep, eol, pad_l, pad_r]})
         try:
             d = read_elast_data(str(f))
         except Exception as ex:
